@@ -118,6 +118,20 @@ impl Val {
 /// written (ATOM_CACHE_REF carries the *position*, not the cache slot).
 pub type AtomPositions = HashMap<String, u8>;
 
+thread_local! {
+    /// While set, identifiers whose creation fits in one byte are written with the older tags
+    /// (PID_EXT 103, PORT_EXT 102, NEW_REFERENCE_EXT 114), as older peers and other libraries do.
+    pub static LEGACY_IDS: std::cell::Cell<bool> = const { std::cell::Cell::new(false) };
+}
+
+/// Runs `f` with the older identifier tags switched on or off.
+pub fn with_legacy_ids<T>(on: bool, f: impl FnOnce() -> T) -> T {
+    let before = LEGACY_IDS.with(|c| c.replace(on));
+    let r = f();
+    LEGACY_IDS.with(|c| c.set(before));
+    r
+}
+
 pub fn enc_term(out: &mut Vec<u8>, v: &Val, pos: Option<&AtomPositions>) {
     match v {
         Val::Int(neg, mag) => {
@@ -189,12 +203,25 @@ pub fn enc_term(out: &mut Vec<u8>, v: &Val, pos: Option<&AtomPositions>) {
                 enc_term(out, x, pos);
             }
         }
+        Val::Pid { node, id, serial, creation } if *creation <= 255 && LEGACY_IDS.with(|c| c.get()) => {
+            out.push(103);
+            enc_atom(out, node, pos);
+            out.extend_from_slice(&id.to_be_bytes());
+            out.extend_from_slice(&serial.to_be_bytes());
+            out.push(*creation as u8);
+        }
         Val::Pid { node, id, serial, creation } => {
             out.push(88);
             enc_atom(out, node, pos);
             out.extend_from_slice(&id.to_be_bytes());
             out.extend_from_slice(&serial.to_be_bytes());
             out.extend_from_slice(&creation.to_be_bytes());
+        }
+        Val::Port { node, id, creation } if *creation <= 255 && *id <= u64::from(u32::MAX) && LEGACY_IDS.with(|c| c.get()) => {
+            out.push(102);
+            enc_atom(out, node, pos);
+            out.extend_from_slice(&(*id as u32).to_be_bytes());
+            out.push(*creation as u8);
         }
         Val::Port { node, id, creation } => {
             out.push(120);
@@ -214,6 +241,15 @@ pub fn enc_term(out: &mut Vec<u8>, v: &Val, pos: Option<&AtomPositions>) {
             out.extend_from_slice(hash);
             // inside the node-local form atoms are always written inline
             enc_term(out, inner, None);
+        }
+        Val::Ref { node, creation, ids } if *creation <= 255 && LEGACY_IDS.with(|c| c.get()) => {
+            out.push(114);
+            out.extend_from_slice(&(ids.len() as u16).to_be_bytes());
+            enc_atom(out, node, pos);
+            out.push(*creation as u8);
+            for i in ids {
+                out.extend_from_slice(&i.to_be_bytes());
+            }
         }
         Val::Ref { node, creation, ids } => {
             out.push(90);
